@@ -299,6 +299,10 @@ func evalTerm(t *T, asg map[string]*big.Int) (*big.Int, bool) {
 			r.And(x, y)
 		case token.OR:
 			r.Or(x, y)
+		case token.XOR:
+			r.Xor(x, y)
+		case token.AND_NOT:
+			r.AndNot(x, y)
 		case token.SHL:
 			r.Lsh(x, uint(y.Uint64()))
 		case token.SHR:
